@@ -2,11 +2,12 @@
 # Build the harness workspaces offline from files on disk only.
 set -e
 cd "$(dirname "$0")"
+ROOT="$(pwd)"
 export CARGO_NET_OFFLINE=true
 mkdir -p .build evidence replays
 cp /repo/Cargo.lock symfrost/Cargo.lock
-(cd symfrost && CARGO_TARGET_DIR=/verif/.build/symfrost cargo build --quiet)
-(cd symfrost/symcore && CARGO_TARGET_DIR=/verif/.build/symfrost cargo test --quiet)
+(cd symfrost && CARGO_TARGET_DIR="$ROOT/.build/symfrost" cargo build --quiet)
+(cd symfrost/symcore && CARGO_TARGET_DIR="$ROOT/.build/symfrost" cargo test --quiet)
 cp /repo/Cargo.lock symfrost-tr/Cargo.lock
-(cd symfrost-tr && CARGO_TARGET_DIR=/verif/.build/symfrost-tr cargo build --quiet)
+(cd symfrost-tr && CARGO_TARGET_DIR="$ROOT/.build/symfrost-tr" cargo build --quiet)
 echo setup ok
